@@ -20,7 +20,7 @@ TEXT = {
  'C14': "theorems: ensurePathExists of the model computes the value-level creation function (objects / arrays / padding / '-'), the added value is found at the path, every other location keeps its value, agreement with plain add (AllowEnsureFacts.v); whole patches with the option on simulate the reference that creates missing parents before each add, also followed by arbitrary further operations (EnsureSim.v) + EnsurePathExistsOnAdd runs compared with the model on every run",
  'C15': "theorems: string codec round trips for every scanner-accepted body, no raw < > & U+2028/9 after escaping, outputs of the model re-parse to the intended value, ApplyIndent's output is Indent of Apply's (Codec.v, PrintParse.v, OutputFacts.v), every output is valid UTF-8 given UTF-8 input (Utf8Out.v), passing tests leave the output bytes unchanged for canonically spelled inputs (TestTransparent.v), the string encoder re-translated from encode.go on every run equals the model's quote (goquote2v, QuoteTie.v) over the regenerated escape tables + output well-formedness, escape profile, re-indentation and test transparency judged on every run",
  'C16': "the scanner is re-translated from scanner.go on every run and proved equal to a reference automaton for all states x stacks x bytes; checkValid over it accepts exactly what the RFC 8259 reader Text.parse reads; Compact and Indent accept iff Valid; every entry point rejects ill-formed input (ScannerTie/Correct/Grammar/Parse, ScanFacts) + exhaustive short strings and mutated texts through every public function",
- 'C17': "theorems: Compact = print of the parse tree (both escape settings), Indent = pp, parse(print t) = t, string codec round trips, key list in document order, numbers keep their literal (ScanFacts, PrintParse, Codec), the string encoder and the Compact / Indent loops re-translated on every run equal the model (QuoteTie.v, IndentTie.v) + Compact/Indent/HTMLEscape/Marshal/Unmarshal compared with the model; the encoding/json clause is compared only (partial)",
+ 'C17': "theorems: Compact = print of the parse tree (both escape settings), Indent = pp, parse(print t) = t, string codec round trips, key list in document order, numbers keep their literal (ScanFacts, PrintParse, Codec), the string encoder, the string decoder and the Compact / Indent loops re-translated on every run equal the model (QuoteTie.v, UnquoteTie.v, IndentTie.v) + Compact/Indent/HTMLEscape/Marshal/Unmarshal compared with the model; the encoding/json clause is compared only (partial)",
  'C18': "theorems: the legacy patch engine computes the RFC 6902 reference up to member order, with exactly two documented deviations (replace / copy of an absent member), same first failing operation (V4ApplySim.v); the index arithmetic of the legacy partialArray methods re-translated from patch.go on every run and proved equal to the model (goidx4v, IndexTie4.v) + staged root package compared with the RFC reference on every run",
  'C19': "theorems: the legacy merge functions compute RFC 7396 merge_patch / mm exactly on the denoted values, legacy Equal = structural equality on escape-free texts and is sound everywhere (V4MergeFacts.v, V4EqualFacts.v), with counterexample theorems for the documented limits + staged root package compared with the reference on every run",
  'C20': "theorem: the command model is the fold of the library model over the patch files, no output on any failure (Properties/C20.v) + the built binary run on generated stdin/patch-file lists on every run",
